@@ -81,7 +81,7 @@ def _nodes_only_added(c, S, S0):
                   c.forall(["id"], lambda n: z3.Implies(z3.And(sel(S.nk, n), z3.Not(sel(S0.nk, n))), z3.And(sel(S.Nin, n) == c.EMPTY, sel(S.Nout, n) == c.EMPTY))))
 
 
-from contracts.common import anf_post as _anf_post  # noqa: E402
+from contracts.common import setter_loop, setter_post, anf_post as _anf_post  # noqa: E402
 
 
 s = std(contract(D + "add_nodes_from", [("self", "net:DH"), ("nodes_for_adding", "val"), ("attr", "kwattr")]))
@@ -448,9 +448,10 @@ def _sna_inv(c, A, K):
 
 
 s = std(contract(D + "set_node_attributes", [("self", "net:DH"), ("values", "val"), ("name", "val", None)]))
-s.loop("for n, v in values.items()", _sna_inv)
-s.loop("for n in self", _sna_inv)
-s.loop("for n, d in values.items()", _sna_inv)
+s.loop("for n, v in values.items()", setter_loop("node", "dv", _sna_inv))
+s.loop("for n in self", setter_loop("node", "const", _sna_inv))
+s.loop("for n, d in values.items()", setter_loop("node", "dd", _sna_inv))
+s.ens("documented-effect", ("C05",), setter_post("node"))
 s.ens_all("structure-unchanged", ("C05",), lambda c, A, R: z3.And(_structure_same(c, R.S, A.S0), edge_attrs_same_on(c, R.S, A.S0)))
 s.exc("XGIError")
 s.exc("TypeError")
@@ -461,9 +462,10 @@ def _sea_inv(c, A, K):
 
 
 s = std(contract(D + "set_edge_attributes", [("self", "net:DH"), ("values", "val"), ("name", "val", None)]))
-s.loop("for e, value in values.items()", _sea_inv)
-s.loop("for e in self._edge", _sea_inv)
-s.loop("for e, d in values.items()", _sea_inv)
+s.loop("for e, value in values.items()", setter_loop("edge", "dv", _sea_inv))
+s.loop("for e in self._edge", setter_loop("edge", "const", _sea_inv))
+s.loop("for e, d in values.items()", setter_loop("edge", "dd", _sea_inv))
+s.ens("documented-effect", ("C05",), setter_post("edge"))
 s.ens_all("structure-unchanged", ("C05",), lambda c, A, R: z3.And(_structure_same(c, R.S, A.S0), node_attrs_same_on(c, R.S, A.S0)))
 s.exc("XGIError")
 s.exc("TypeError")
